@@ -630,6 +630,15 @@ theorem step_preserves (g : Bool) (P : Grid → Prop)
           obtain ⟨rfl, hsn⟩ := mkMulti_ok hm
           exact ⟨fun c hc => hP c (getAll_inv hg c hc), hsn⟩
     | empty => exact h
+  | badItem onValues =>
+    cases s with
+    | empty => exact h
+    | multi cs => exact h
+    | uni x =>
+      simp only
+      split
+      · exact h
+      · exact h
   | concat others =>
     cases s with
     | empty => exact h
